@@ -58,7 +58,12 @@ RULE = (
     "mode designations / row matrices / Khatri-Rao factors in other dtypes (int32, intp, small signed and unsigned integers, "
     "numpy scalars; bool, float32, complex128 for khatrirao) and mixed between operands, rows that coincide modulo 256, "
     "F-ordered and strided argument arrays, mode sizes up to 300 (sizes beyond 2**31), order='C', factors scaled by 1e-6 / "
-    "1e+6, and every helper asked twice with the first answer overwritten in between."
+    "1e+6, and every helper asked twice with the first answer overwritten in between.  Round 3: tensor sizes between 2**53 and "
+    "2**63 and 1e4 .. 7e4 indices at once (C17/index/large), 12 .. 257 modes (C17/dimscheck/large-N), row matrices of 2100 .. "
+    "3600 rows with boxes shifted against each other (C17/rows/large, n_search*n_source > 2**22), rows with entries beyond "
+    "2**31 / 2**53 / 2**62 and float rows that differ by one ulp / 1e-9 / 1e-12, Khatri-Rao factors with 2e4 .. 1.5e5 result "
+    "rows or 33 .. 257 columns, one or two factors spanning 1e-300 .. 1e+300 (exact: one multiplication per entry), whole "
+    "factors scaled by 1e-9 / 1e-12, factors without rows or without columns."
 )
 ASSUMPTIONS = [
     "row helpers: MATLAB 'rows' set semantics as far as callers in sptensor.py depend on them (validity, distinctness, "
@@ -72,6 +77,10 @@ ASSUMPTIONS = [
     "khatrirao with a float32 argument: products may be rounded to float32 whichever way the factors are associated "
     "(NumPy result types), bound 64*k*eps_float32*|product|; integer / boolean / complex data with integer parts compared "
     "exactly; uint8 / bool entries are kept so small that a product of four cannot wrap",
+    "C17/rows/large, C17/index/large (many), C17/khatrirao/large-extreme-empty: operands are expanded from the case's integer "
+    "seed with numpy's default_rng inside the body; extreme-range Khatri-Rao products are judged exactly only for one or two "
+    "factors (with three the association order decides what underflows)",
+    "khatrirao of a single matrix returns a reshaped view of its argument (NumPy convention); writing into it is not judged",
 ]
 
 
@@ -439,8 +448,16 @@ def _holding(dtype, rows):
     return dtype
 
 
+def _norm(v):
+    """an entry as a Python number: exact int when integral (big ints stay exact), else the float itself"""
+    if isinstance(v, (int, np.integer)):
+        return int(v)
+    v = float(v)
+    return int(v) if v.is_integer() else v
+
+
 def _tuples(rows):
-    return [tuple(int(v) for v in r) for r in rows]
+    return [tuple(_norm(v) for v in r) for r in rows]
 
 
 def _first_occ_order(rows):
@@ -480,7 +497,7 @@ def _rep_tag(pc, which):
 def _label_pair(ctx, pc, case=None):
     if case is not None and "dtypeB" in case:
         ctx.label("dtypes-same" if case["dtype"] == case["dtypeB"] else "dtypes-mixed", "A-" + case["dtype"], "B-" + case["dtypeB"],
-                  "rows-alias-modulo-256" if case.get("alias") else "no-alias",
+                  "rows-alias-modulo-256" if case.get("alias") else "no-alias", "entries-" + case.get("entries", "small"),
                   "layout-" + case.get("layout", "C") + "/" + case.get("layoutB", "C"))
     ctx.label(
         "A-empty" if pc["a_empty"] else ("A-repeats" if pc["a_repeats"] else "A-distinct"),
@@ -570,7 +587,7 @@ def check_union(ctx, case):
         ctx.check(got.size == 0, "union-of-empties-empty", got.shape)
         return
     ctx.require(got.ndim == 2 and got.shape[1] == w, "union-row-matrix", got.shape)
-    rows = [tuple(int(v) for v in r) for r in got.tolist()]
+    rows = [tuple(_norm(v) for v in r) for r in got.tolist()]
     tb = "second-sorted" if pc["b_sorted"] else "second-unsorted"
     ctx.check(len(set(rows)) == len(rows), f"union-rows-distinct/{tb}", f"A={A} B={B} got={rows}")
     ctx.check(set(rows) == want, f"union-is-set-union/{tb}", f"A={A} B={B} got={rows}")
@@ -627,7 +644,13 @@ def _row_pair(draw, tier):
     # alias mode: one operand is held in uint8, the other (int64) gets rows that differ from rows of the first by a
     # multiple of 256 in one entry - distinct rows that coincide if either operand is cast to the other's dtype
     alias = draw(st.sampled_from([None] * 6 + ["A-narrow", "B-narrow"]))
-    letters = [0, 1, 255] if alias else draw(st.sampled_from([[0, 1, 2], [0, 1, 2], [3, 0, 7], [1, 2, 5], [0, 255, 256, -1]]))
+    # round 3: 'wide' entries (beyond 2**31 / 2**53, extents whose product overflows int64: rows must not be compared
+    # through float64 or through scalar keys that wrap) and 'near' rows (floats that differ by one ulp / 1e-9 / 1e-12,
+    # or whose entries are below every absolute tolerance: distinct rows all the same)
+    _WIDE = [0, 1, 2 ** 31, 2 ** 53, 2 ** 53 + 1, 2 ** 62, -(2 ** 62)]
+    _NEAR = [0.0, 1e-9, 1e-12, 2e-12, 1.0, 1.0000000000000002, 1.000000001, 0.9999999999999999]
+    letters = [0, 1, 255] if alias else draw(st.sampled_from([[0, 1, 2], [0, 1, 2], [3, 0, 7], [1, 2, 5], [0, 255, 256, -1],
+                                                              _WIDE, _NEAR]))
     pool = draw(st.lists(st.tuples(*[st.sampled_from(letters)] * w), min_size=1, max_size=6, unique=True))
     where = [draw(st.sampled_from(["both", "both", "both", "A", "B"])) for _ in pool]
     A = [list(r) for r, t in zip(pool, where) if t in ("both", "A")]
@@ -660,9 +683,17 @@ def _row_pair(draw, tier):
     dB = dA if draw(st.booleans()) else draw(st.sampled_from(dts))  # same dtype or a generated mix
     if alias:
         dA, dB = ("uint8", "int") if alias == "A-narrow" else ("int", "uint8")
+    entries = "small"
+    if letters is _WIDE:
+        dA = dB = "int"  # (a float64 array cannot hold 2**53 + 1)
+        entries = "wide"
+    elif letters is _NEAR:
+        dA = dB = "float"
+        entries = "near"
     lays = ["C", "C", "F", "strided"]
     return dict(A=A, B=B, width=w, empty_form=draw(st.sampled_from(["1x0", "0xw"])), dtype=dA, dtypeB=dB,
-                layout=draw(st.sampled_from(lays)), layoutB=draw(st.sampled_from(lays)), mode=mode, alias=alias)
+                layout=draw(st.sampled_from(lays)), layoutB=draw(st.sampled_from(lays)), mode=mode, alias=alias,
+                entries=entries)
 
 
 @cell("C17/rows/intersect/enumerated", enum=_enum_row_pairs, shards=(4, 16))
@@ -773,6 +804,163 @@ def rows_sptensor_subs(ctx, case):
     check_setdiff(ctx, case)
     check_union(ctx, case)
     check_ismember(ctx, case)
+
+
+# -- round 3: operands above internal block sizes ----------------------------------------------------------------
+
+
+@st.composite
+def _rows_large(draw, tier):
+    """two row matrices with 2100..3600 rows each (n_search * n_source well above 2**22 comparisons, more rows than any
+    1e3 / 1e4-row block of a vectorised matcher), expanded from a seed in the body.  The rows of B come from a box that
+    is shifted against A's box in a generated column, so part of each operand lies outside the other's range."""
+    w = draw(st.integers(1, 3))
+    nA, nB = draw(st.integers(2100, 3600)), draw(st.integers(2100, 3600))
+    if draw(st.integers(0, 5)) == 0:
+        nA = draw(st.sampled_from([1, 7, 1023, 1025]))  # one operand short, the other long
+    elif draw(st.integers(0, 5)) == 0:
+        nB = draw(st.sampled_from([1, 7, 1023, 1025]))
+    return dict(seed=draw(st.integers(0, 2 ** 31 - 1)), nA=nA, nB=nB, width=w, shift_col=draw(st.integers(0, w - 1)),
+                shift=draw(st.sampled_from([0, 0.25, 0.5])), repeats=draw(st.booleans()),
+                sortB=draw(st.booleans()), helper=draw(st.sampled_from(["intersect", "setdiff", "union", "ismember"])),
+                offset=draw(st.sampled_from([0, 0, 2 ** 31, 2 ** 53])))
+
+
+def _expand_rows_large(case):
+    rng = np.random.default_rng(case["seed"])
+    w, nA, nB = case["width"], case["nA"], case["nB"]
+    span = max(2, int(round((3.0 * (nA + nB)) ** (1.0 / w))))  # about a third of the box is occupied
+    A = rng.integers(0, span, size=(nA, w))
+    B = rng.integers(0, span, size=(nB, w))
+    B[:, case["shift_col"]] += int(span * case["shift"])
+    if case["repeats"]:
+        A[rng.integers(0, nA, size=nA // 5)] = A[rng.integers(0, nA, size=nA // 5)]
+        B[rng.integers(0, nB, size=nB // 5)] = B[rng.integers(0, nB, size=nB // 5)]
+    if case["sortB"]:
+        B = B[np.lexsort(B.T[::-1])]
+    A, B = A + case["offset"], B + case["offset"]
+    return dict(A=A.tolist(), B=B.tolist(), width=w, empty_form="0xw", dtype="int")
+
+
+@cell("C17/rows/large", strategy=_rows_large, quick=6, thorough=80, shards=(2, 8))
+def rows_large(ctx, case):
+    """the set-algebra laws on operands of thousands of rows (oracle: Python sets of tuples, cheap at this size)"""
+    big = _expand_rows_large(case)
+    pc = pair_class(big)
+    ctx.nt = _nt_pair(pc)
+    _label_pair(ctx, pc)
+    ctx.label("helper-" + case["helper"], "offset-%d" % case["offset"], "shifted" if case["shift"] else "same-box",
+              "comparisons>2^22" if case["nA"] * case["nB"] > 2 ** 22 else "comparisons<=2^22")
+    {"intersect": check_intersect, "setdiff": check_setdiff, "union": check_union, "ismember": check_ismember}[case["helper"]](ctx, big)
+
+
+@st.composite
+def _index_large(draw, tier):
+    """(a) tensor sizes between 2**53 and 2**63 (only a sparse tensor has them): linear indices that no float64 holds,
+    products that need all 64 bits; (b) tens of thousands of indices at once in an ordinary shape"""
+    if draw(st.integers(0, 3)) == 0:
+        n = draw(st.integers(1, 4))
+        shape = [draw(st.integers(1, 40)) for _ in range(n - 1)]
+        count = draw(st.one_of(st.sampled_from([10000, 10001, 16384, 16385, 65536, 65537]), st.integers(17000, 70000)))
+        shape.append(max(1, -(-count // ref.prod(shape))) * draw(st.integers(1, 3)))
+        shape = [shape[i] for i in draw(st.permutations(range(n)))]
+        return dict(kind="many", shape=shape, count=count, seed=draw(st.integers(0, 2 ** 31 - 1)),
+                    order=draw(st.sampled_from(["F", None, "C"])), neg=draw(st.booleans()))
+    n = draw(st.integers(1, 5))
+    total = draw(st.integers(54, 62))  # bits of the size
+    cuts = sorted(draw(st.lists(st.integers(0, total), min_size=n - 1, max_size=n - 1)))
+    bits = [b - a for a, b in zip([0] + cuts, cuts + [total])]
+    shape = []
+    for b in bits:
+        lo, hi = (1 << b), (1 << (b + 1)) - 1
+        shape.append(draw(st.one_of(st.just(lo), st.integers(lo, hi), st.just(lo + 1))))
+    while ref.prod(shape) >= 2 ** 63:
+        k = shape.index(max(shape))
+        shape[k] = max(1, shape[k] // 2)
+    size = ref.prod(shape)
+    pos = [st.integers(0, size - 1), st.integers(max(0, size - 65), size - 1), st.just(size - 1)]
+    if size > 2 ** 53 + 64:
+        pos += [st.integers(2 ** 53, 2 ** 53 + 64), st.integers(2 ** 53, size - 1)]
+    idx = draw(st.lists(st.one_of(*pos), min_size=1, max_size=8))
+    neg = draw(st.lists(st.booleans(), min_size=len(idx), max_size=len(idx))) if draw(st.booleans()) else [False] * len(idx)
+    return dict(kind="huge", shape=shape, idx=idx, neg=neg, order=draw(st.sampled_from(["F", None, "C"])),
+                shape_entry=draw(st.sampled_from(["int", "int", "np.int64"])))
+
+
+def _py_ind2sub(i, shape, order):
+    s, r = [], i
+    for nmode in (shape if order != "C" else shape[::-1]):
+        s.append(r % nmode)
+        r //= nmode
+    return s if order != "C" else s[::-1]
+
+
+@cell("C17/index/large", strategy=_index_large, quick=150, thorough=2500, shards=(2, 8))
+def index_large(ctx, case):
+    shape = tuple(case["shape"])
+    size = ref.prod(shape)
+    order = case["order"]
+    okw = {} if order is None else dict(order=order)
+    ctx.nt = len(set(shape)) >= 2
+    if case["kind"] == "many":
+        rng = np.random.default_rng(case["seed"])
+        idx = rng.integers(0, size, size=case["count"])
+        idx[: min(4, idx.size)] = [0, size - 1, size // 2, max(0, size - 2)][: min(4, idx.size)]
+        ctx.label("many-indices", f"order{len(shape)}", f"order-arg-{order}", "negative" if case["neg"] else "non-negative",
+                  "count>16384" if case["count"] > 16384 else "count<=16384", "count>65536" if case["count"] > 65536 else "count<=65536")
+        # my own vectorised first-index-fastest (or last-index-fastest) digits
+        digits, r = [], idx.copy()
+        for nmode in (shape if order != "C" else shape[::-1]):
+            digits.append(r % nmode)
+            r = r // nmode
+        expect = np.stack(digits if order != "C" else digits[::-1], axis=1)
+        given = idx - size if case["neg"] else idx
+        with ctx.sut("tt_ind2sub/many"):
+            s = np.asarray(ttu.tt_ind2sub(shape, given.copy(), **okw))
+        ctx.require(s.shape == expect.shape, "ind2sub-result-shape/many", s.shape)
+        ctx.check(np.array_equal(s, expect), "ind2sub-subset/many", ref.diff_info(s, expect))
+        with ctx.sut("tt_sub2ind/many"):
+            l = np.asarray(ttu.tt_sub2ind(shape, expect.copy(), **okw))
+        ctx.require(l.shape == idx.shape, "sub2ind-result-size/many", l.shape)
+        ctx.check(np.array_equal(l, idx), "sub2ind-subset/many", ref.diff_info(l, idx))
+        return
+    idx = [int(i) for i in case["idx"]]
+    given = [i - size if ng else i for i, ng in zip(idx, case["neg"])]
+    ctx.label("huge-size", f"order{len(shape)}", f"order-arg-{order}", "has-negative" if any(case["neg"]) else "no-negative",
+              "shape-entries-" + case["shape_entry"], "index-not-a-float64" if any(int(float(i)) != i for i in idx) else
+              "indices-are-float64", "mode>2^31" if max(shape) > 2 ** 31 else "modes<=2^31",
+              "mode>2^53" if max(shape) > 2 ** 53 else "modes<=2^53")
+    expect = np.array([_py_ind2sub(i, shape, order) for i in idx], dtype=np.int64).reshape(len(idx), len(shape))
+    shape_arg = tuple(np.int64(x) for x in shape) if case["shape_entry"] == "np.int64" else shape
+    with ctx.sut("tt_ind2sub/huge"):
+        s = np.asarray(ttu.tt_ind2sub(shape_arg, np.array(given, dtype=np.int64), **okw))
+    ctx.require(s.shape == expect.shape, "ind2sub-result-shape/huge", s.shape)
+    ctx.check(np.issubdtype(s.dtype, np.integer), "ind2sub-integer-subscripts/huge", s.dtype)
+    ctx.check(np.issubdtype(s.dtype, np.integer) and s.tolist() == expect.tolist(), "ind2sub-subset/huge",
+              f"{s.tolist()} vs {expect.tolist()}")
+    with ctx.sut("tt_sub2ind/huge"):
+        l = np.asarray(ttu.tt_sub2ind(shape_arg, expect.copy(), **okw))
+    ctx.require(l.size == len(idx), "sub2ind-result-size/huge", l.shape)
+    ctx.check(np.issubdtype(l.dtype, np.integer) and [int(v) for v in l.reshape(-1).tolist()] == idx, "sub2ind-subset/huge",
+              f"{l.tolist()} vs {idx}")
+
+
+@st.composite
+def _dimscheck_large(draw, tier):
+    N = draw(st.sampled_from([12, 21, 33, 64, 100, 257]))
+    k = draw(st.sampled_from([1, 2, 3, N // 2, N - 1, N]))
+    sel = list(draw(st.permutations(range(N))))[:k]
+    which = draw(st.sampled_from(["dims", "exclude"]))
+    P = k if which == "dims" else N - k
+    return dict(N=N, which=which, sel=sel, form=draw(st.sampled_from(["list", "ndarray", "tuple", "ndarray-int32"])),
+                M=draw(st.sampled_from([None, P, N, N + 1, max(0, P - 1)])))
+
+
+@cell("C17/dimscheck/large-N", strategy=_dimscheck_large, quick=100, thorough=1500, shards=(1, 4))
+def dimscheck_large(ctx, case):
+    """the laws of C17/dimscheck/enumerated for tensors with 12..257 modes (above every small-N table)"""
+    ctx.label(f"N{case['N']}")
+    dimscheck_enumerated(ctx, case)
 
 
 # ==========================================================================
@@ -1007,7 +1195,7 @@ def _kr_case(draw, tier):
     scales = [1.0] * k
     for j, dn in enumerate(dtypes):
         if dn == "float64" and vkind == "float":
-            scales[j] = draw(st.sampled_from([1.0, 1.0, 1e-6, 1e6]))
+            scales[j] = draw(st.sampled_from([1.0, 1.0, 1e-6, 1e6, 1e-9, 1e-12]))  # (round 3: below every absolute tolerance)
             mats[j] = [[v * scales[j] for v in row] for row in mats[j]]
     imag = None
     if "complex128" in dtypes:
@@ -1087,6 +1275,97 @@ def khatrirao_sampled(ctx, case):
     _check_kr(ctx, case)
 
 
+# -- round 3: large factors, extreme dynamic range, factors without rows / columns --------------------------------
+
+
+@st.composite
+def _kr_big_case(draw, tier):
+    kind = draw(st.sampled_from(["large", "large", "extreme", "extreme", "empty"]))
+    seed = draw(st.integers(0, 2 ** 31 - 1))
+    rev = draw(st.booleans())
+    if kind == "large":
+        # 2e4..1.5e5 result rows (above 16384 / 65536-row blocks) or many columns
+        k = draw(st.integers(2, 3))
+        if draw(st.booleans()):
+            rows = [draw(st.integers(100, 400)), draw(st.integers(100, 400))] + ([draw(st.integers(1, 3))] if k == 3 else [])
+            rows = [rows[i] for i in draw(st.permutations(range(k)))]
+            ncol = draw(st.integers(1, 3))
+        else:
+            rows = [draw(st.integers(2, 12)) for _ in range(k)]
+            ncol = draw(st.sampled_from([33, 64, 100, 257]))
+        return dict(kind=kind, seed=seed, rows=rows, ncol=ncol, reverse=rev, vkind=draw(st.sampled_from(["int", "float"])),
+                    layout=[draw(st.sampled_from(["C", "F"])) for _ in range(k)])
+    if kind == "extreme":
+        # one or two factors whose entries span the whole exponent range: a product of two doubles is one correctly
+        # rounded multiplication whichever way the code arranges it, so the comparison is exact (underflow to zero,
+        # overflow to inf and subnormal results included)
+        k = draw(st.sampled_from([1, 2, 2, 2]))
+        return dict(kind=kind, seed=seed, rows=[draw(st.integers(1, 5)) for _ in range(k)], ncol=draw(st.integers(1, 3)),
+                    reverse=rev, mags=[draw(st.sampled_from(["1e-200", "1e-200", "1e-160", "1e-18", "1e+18", "1e+200", "mixed",
+                                                             "mixed"])) for _ in range(k)],
+                    layout=[draw(st.sampled_from(["C", "F"])) for _ in range(k)])
+    k = draw(st.integers(1, 3))
+    rows = [draw(st.integers(0, 3)) for _ in range(k)]
+    ncol = draw(st.sampled_from([0, 1, 2]))
+    if ncol and 0 not in rows:
+        rows[draw(st.integers(0, k - 1))] = 0
+    return dict(kind=kind, seed=seed, rows=rows, ncol=ncol, reverse=rev, layout=["C"] * k)
+
+
+def kr_no_columns(case):
+    return case.get("kind") == "empty" and case.get("ncol") == 0
+
+
+@cell("C17/khatrirao/large-extreme-empty", strategy=_kr_big_case, quick=60, thorough=900, shards=(2, 8))
+def khatrirao_big(ctx, case):
+    rng = np.random.default_rng(case["seed"])
+    rows, ncol, rev, kind = case["rows"], case["ncol"], case["reverse"], case["kind"]
+    k = len(rows)
+    if kind == "large":
+        mats = [(rng.integers(-6, 7, size=(r, ncol)).astype(float) if case["vkind"] == "int" else
+                 rng.standard_normal((r, ncol)) * 10.0 ** rng.integers(-3, 4, size=(r, ncol))) for r in rows]
+    elif kind == "extreme":
+        mats = []
+        for r, mag in zip(rows, case["mags"]):
+            e = rng.choice([-300, -200, -160, -18, 0, 18, 150, 200, 300], size=(r, ncol)) if mag == "mixed" else \
+                np.full((r, ncol), float(mag.split("e")[1]))
+            M = rng.uniform(1.0, 10.0, size=(r, ncol)) * rng.choice([-1.0, 1.0], size=(r, ncol)) * 10.0 ** e
+            M[rng.random((r, ncol)) < 0.1] = 0.0
+            mats.append(M)
+    else:
+        mats = [rng.integers(1, 7, size=(r, ncol)).astype(float) for r in rows]
+    mats = [np.asfortranarray(m) if lay == "F" else np.ascontiguousarray(m) for m, lay in zip(mats, case["layout"])]
+    keep = [m.copy() for m in mats]
+    ctx.nt = k >= 2 and len(set(rows)) >= 2
+    nrow = ref.prod(rows)
+    tag = {"large": "large", "extreme": "extreme", "empty": "no-columns" if ncol == 0 else "no-rows"}[kind]
+    ctx.label("kr-" + tag, f"k{k}", "reverse" if rev else "forward",
+              *(["rows>65536" if nrow > 65536 else ("rows>16384" if nrow > 16384 else "rows<=16384"), f"ncol{min(ncol, 33)}+"
+                 if ncol >= 33 else "few-columns"] if kind == "large" else []))
+    with ctx.sut("khatrirao/" + tag):
+        got = ttb.khatrirao(*mats, reverse=rev) if rev else ttb.khatrirao(*mats)
+    eff = mats[::-1] if rev else mats
+    # column-wise Kronecker product, first (effective) argument slowest: my own outer products, one multiplication per
+    # factor pair (exact for k <= 2)
+    want = eff[0]
+    for M in eff[1:]:
+        want = (want[:, None, :] * M[None, :, :]).reshape(want.shape[0] * M.shape[0], ncol)
+    ctx.require(isinstance(got, np.ndarray) and got.shape == (nrow, ncol), f"khatrirao-shape/{tag}",
+                f"{getattr(got, 'shape', None)} vs {(nrow, ncol)}")
+    if kind == "extreme" or kind == "empty" or case.get("vkind") == "int":
+        ctx.check(ref.same_exact(got, want), f"khatrirao-columnwise-kronecker/{tag}", ref.diff_info(got, want))
+        if kind == "extreme" and k == 2:
+            with np.errstate(all="ignore"):
+                ctx.label("some-product-underflows-to-zero" if bool(np.any((want == 0) & (
+                    (eff[0][:, None, :] != 0) & (eff[1][None, :, :] != 0)).reshape(nrow, ncol))) else "no-underflow",
+                    "some-product-overflows" if bool(np.any(np.isinf(want))) else "no-overflow")
+    else:
+        tol = 64.0 * k * ref.EPS * np.abs(want) + 1e-290
+        ctx.check(bool(np.all((np.abs(got - want) <= tol) | (got == want))), f"khatrirao-columnwise-kronecker/{tag}",
+                  ref.diff_info(got, want))
+    ctx.check(all(np.array_equal(a, b) for a, b in zip(keep, mats)), "khatrirao-leaves-arguments")
+
+
 def _enum_kr(tier):
     """every tuple of row counts in 1..3 (thorough 1..4) for 1..3 (thorough 1..4) matrices, 1..2 columns, both directions;
     entries are distinct primes per position so that a misplaced factor changes the product"""
@@ -1134,6 +1413,11 @@ def _repeat_before_common(rows, other):
 
 
 PREDICATES = {
+    # khatrirao reshapes with -1 next to a zero-length axis
+    "khatrirao_no_columns": lambda c: kr_no_columns(c),
+    # tt_union_rows replaces an empty operand by np.empty(...) of float64: the vstack is then float64
+    "union_one_operand_empty_other_beyond_2_53": lambda c: (not c["A"] or not c["B"]) and any(
+        isinstance(v, int) and int(float(v)) != v for r in list(c["A"]) + list(c["B"]) for v in r),
     # tt_intersect_rows(X, Y) / tt_setdiff_rows(X, Y) take positions in the de-duplicated X for positions in X:
     "A_repeat_before_common_row": lambda c: _repeat_before_common(c["A"], c["B"]),
     "B_repeat_before_common_row": lambda c: _repeat_before_common(c["B"], c["A"]),
